@@ -33,6 +33,10 @@ var drainScenarios = []termScenario{
 	{name: "tgp60-already-terminating", tgp: dur(60 * time.Second), pods: []termPod{{name: "a", terminating: true, grace: i64(300)}, {name: "b", grace: i64(30)}}, first: "nodeclaim"},
 	{name: "pdb-blocked-lower-tier", pods: []termPod{{name: "a", pdb: "blocked"}, {name: "d", daemon: true}}, first: "node"},
 	{name: "tgp300-slow-pods-pdb", tgp: dur(300 * time.Second), slowPods: true, pods: []termPod{{name: "a", pdb: "blocked", grace: i64(120)}, {name: "b", grace: i64(30)}}, first: "nodeclaim"},
+	// the owner re-creates pod a under the same name (new UID) on another node while the drain is under way: the queue
+	// entry of the old pod must never remove the new one (the eviction carries the old pod's UID as a precondition)
+	{name: "pod-replaced-under-same-name", pods: []termPod{{name: "a", grace: i64(30)}, {name: "b"}}, replaced: "a", first: "nodeclaim"},
+	{name: "pod-replaced-under-same-name-pdb-blocked", pods: []termPod{{name: "a", pdb: "blocked"}, {name: "d", daemon: true}}, replaced: "a", first: "nodeclaim"},
 	{name: "tgp60-tiers-grace", tgp: dur(60 * time.Second), pods: []termPod{{name: "a", grace: i64(20)}, {name: "d", daemon: true, grace: i64(40)}, {name: "c", critical: true, daemon: true, grace: i64(70)}}, first: "nodeclaim"},
 }
 
@@ -112,7 +116,9 @@ func c10After(c *world.Call, t *termRun) {
 		}
 		// ... and, read literally: no non-critical non-daemon pod is evicted AFTER a daemon / critical pod was (e.g. one whose
 		// do-not-disrupt duration expired in the meantime)
-		if ps.tier() == 0 {
+		// (an eviction request that the API answers with NotFound / Conflict — a stale queue entry for a pod that is already
+		// gone — evicts nothing and is not an eviction in the sense of the statement)
+		if ps.tier() == 0 && c.Err == "" {
 			for name, qs := range t.spec {
 				if qs.tier() > 0 && t.evicted[name] {
 					t.viol = append(t.viol, c01Violation{"non-critical non-daemon pod evicted after a daemon/critical pod", fmt.Sprintf("eviction of %s (non-critical, non-daemon) requested after %s (tier %d) had already been evicted", c.Name, name, qs.tier())})
@@ -121,6 +127,14 @@ func c10After(c *world.Call, t *termRun) {
 		}
 		if c.Err == "" {
 			t.evicted[c.Name] = true
+			// an eviction is resolved by NAME at the API server: the pod that was removed has to be the pod the drain
+			// enqueued, not a pod re-created under the same name elsewhere (that one has an active do-not-disrupt and
+			// does not even run on the draining node)
+			if i := strings.Index(c.Note, "evicted-uid="); i >= 0 {
+				if uid := c.Note[i+len("evicted-uid="):]; uid != string(t.pods[c.Name].UID) {
+					t.viol = append(t.viol, c01Violation{"evicted a protected pod: a same-name replacement on another node (do-not-disrupt active)", fmt.Sprintf("the eviction requested for pod %s (uid %s, enqueued by the drain) removed the pod that replaced it under the same name (uid %s), which runs on another node and has an active do-not-disrupt annotation", c.Name, t.pods[c.Name].UID, uid)})
+				}
+			}
 		}
 	case "delete":
 		var why []string
